@@ -176,6 +176,10 @@ def fixed_point_bounded_instance():
             blur = min(blur, GMM_BLUR)
         init = (1 - blur) * onehot + blur / K
         init = np.broadcast_to(init, (F, K, N)).copy()
+        if inp['seed'] % 5 == 0:
+            # the true partition itself as a hard one-hot start of boolean / integer element type (labels_to_one_hot style)
+            blur = 0.0
+            init = np.broadcast_to(onehot, (F, K, N)).astype([bool, np.int64][(inp['seed'] // 5) % 2])
         if model in ('gcacgmm', 'vmfcacgmm'):
             cls = GCACGMMTrainer if model == 'gcacgmm' else VMFCACGMMTrainer
             # (the inline alignment between the two streams is an option of the integration models)
